@@ -19,6 +19,10 @@ Inductive op :=
 | OpFree (i : N)
 | OpStrAdd (i : N) (s : bytes)
 | OpStrGet (i idx : N)
+(* the same operations with an argument that points into the section's own buffer *)
+| OpStrAddSelf (i idx : N)             (* add_string( get_string( idx ) ) *)
+| OpDAppSelf (i off len : N)           (* append_data( get_data() + off, len ) *)
+| OpNoteAddSelf (k type : N) (name : bytes) (idx : N)   (* add_note( type, name, desc, descsz ) with desc, descsz as get_note( idx ) returned them *)
 (* symbols *)
 | OpSymAdd (symsec name value size info other shndx : N)
 | OpSymAddS (symsec strsec : N) (name : bytes) (value size info other shndx : N)
@@ -411,6 +415,28 @@ Definition step1 (w : world) (o : op) : res (world * list obs) :=
       s <- need_sec el1 i ;;
       r <- get_string_raw p (sh_size s) (wrap32 idx) ;;
       Ok (mkWorld el1, [ObB T_STRGET [i; idx] r])
+  | OpStrAddSelf i idx =>
+      (* value semantics: the string is read first; the C++ passes the pointer get_string() returned *)
+      '(el1, p) <- el_sec_get_data junk0 el i ;;
+      s <- need_sec el1 i ;;
+      r <- get_string_raw p (sh_size s) (wrap32 idx) ;;
+      match r with
+      | None => Ok (mkWorld el1, [ObN T_ABSENT [i]])
+      | Some str =>
+          '(s1, ix) <- add_string junk0 (xe el1) s (take_cstr str) ;;
+          Ok (mkWorld (upd_sec el1 i s1), [ObN T_STRADD [i; ix]])
+      end
+  | OpDAppSelf i off len =>
+      '(el1, p) <- el_sec_get_data junk0 el i ;;
+      s <- need_sec el1 i ;;
+      match p with
+      | None => Ok (mkWorld el1, [ObN T_ABSENT [i]])
+      | Some _ =>
+          if off + len <=? sh_size s then
+            d <- rd p off len ;;
+            s1 <- insert_data junk0 (xe el1) s (sh_size s) d ;; Ok (mkWorld (upd_sec el1 i s1), [])
+          else Ok (mkWorld el1, [ObN T_ABSENT [i]])
+      end
   | OpAddSeg => '(el1, j) <- segments_add el ;; Ok (mkWorld el1, [ObN T_ADDSEG [j]])
   | OpSegSet j f v =>
       match get_seg el j with
@@ -599,6 +625,20 @@ Definition step1 (w : world) (o : op) : res (world * list obs) :=
       match find_acc (w_accs w) k with
       | Some (ANote a) =>
           '(el1, a1) <- note_add junk0 el a type name desc ;; Ok (set_acc w el1 k (ANote a1), [])
+      | _ => Fault NullDeref
+      end
+  | OpNoteAddSelf k type name idx =>
+      match find_acc (w_accs w) k with
+      | Some (ANote a) =>
+          '(el1, r) <- note_get junk0 el a idx ;;
+          match r with
+          | Some v =>
+              match nv_desc v with
+              | Some d => '(el2, a1) <- note_add junk0 el1 a type name d ;; Ok (set_acc w el2 k (ANote a1), [])
+              | None => Ok (mkWorld el1, [ObN T_ABSENT [k]])
+              end
+          | None => Ok (mkWorld el1, [ObN T_ABSENT [k]])
+          end
       | _ => Fault NullDeref
       end
   (* ---- arrays ---- *)
